@@ -176,7 +176,13 @@ func (s *Server) serve(ctx context.Context) {
 			}
 		} else {
 			tempDelay = 0
-			go s.startSession(sessionID, conn, log.Logger)
+			// Count the session before its goroutine is started: startSession registers with the
+			// WaitGroup only once it runs, and a Drain() in between would not wait for it.
+			s.wg.Add(1)
+			go func(id int, conn net.Conn) {
+				defer s.wg.Done()
+				s.startSession(id, conn, log.Logger)
+			}(sessionID, conn)
 		}
 	}
 }
